@@ -273,7 +273,7 @@ def cycles_scenario(rng, method):
     cleanup = ([f"?unreg f{i}" for i in range(g.nf)] + [f"?tunreg t{i}" for i in range(g.nt)] + ["?tunreg t63"] +
                [f"?kunreg k{i}" for i in range(1, g.nk + 1)] + [f"?evunreg e{i}" for i in range(g.ne)] +
                [f"?rawunreg r{i}" for i in range(1, g.nr + 1)])
-    burst = rng.choice([0, 0, 130, 200])
+    burst = rng.choice([0, 130, 300, 700])
     if burst:
         cleanup.append(f"tburstoff 64 {64 + burst}")
     for rnd in range(rng.choice([3, 4, 5])):
